@@ -50,7 +50,7 @@ def check(ctx):
     except (mir.AnchorLost, IndexError) as e:
         ctx.fail("C10.b", "anchor-lost:AutoDespawnSignal", "", str(e))
     try:
-        inner = prog.adt_by_name("AutoDespawnSignalInner")
+        inner = prog.adt_by_name(A.signal_payload_name(prog))
         sig = prog.adt_by_name("AutoDespawnSignal")
         desp = prog.adt_by_name("AutoDespawner")
         prep = A.method(prog, "AutoDespawner", "prepare")
@@ -65,7 +65,7 @@ def check(ctx):
             try_recv = A.method(prog, "AutoDespawner", "try_recv")
         except mir.AnchorLost:
             try_recv = None
-        drop = A.trait_method(prog, "AutoDespawnSignalInner", "Drop", "drop")
+        drop = A.trait_method(prog, A.signal_payload_name(prog), "Drop", "drop")
         clone = A.trait_method(prog, "AutoDespawnSignal", "Clone", "clone")
         ent = A.method(prog, "AutoDespawnSignal", "entity")
     except mir.AnchorLost as e:
